@@ -94,6 +94,8 @@ def idempotence(fs, model, case, kw, mon, ins=False):
     except Exception as e:
         mon.problem("C15", f"resume-after-finish-raises:{type(e).__name__}@{where(traceback.format_exc())}", str(e)[:200])
         return
+    if not ins:
+        mon.end_of_run(fs3.ns)   # the C01 trace clauses on what the resumed sampler holds
     d3, e3 = result_digest(fs3, ins)
     if d3 != d1:
         mon.problem("C15", "resume-after-finish-changes-results", (d1[:12], d3[:12]))
